@@ -14,6 +14,18 @@
      over binary64 the correctly rounded quotient = the literal Python parses (|m| < 2^53, 10^k <= 10^22);
    * `a ** k` with a literal non-negative int k is k-fold multiplication ([ipow]); other powers are [npow];
    * bool used as a number is [b2n];
+   * an int matrix is a [list (list Z)] ([imnth], [imrow]); a 2-d array is a RECTANGULAR list of rows: `a.shape[1]` is
+     the length of row 0 and `a.size` is [msize] = shape[0] * shape[1]; `a.ravel()` is [mravel] = the rows concatenated;
+   * boolean-mask indexing `a[a < c]` is [vfilter] = [filter] (the selected entries, in order);
+   * np.floor is [nfloor], derived from the truncation [ntrunc] (floor x = trunc x, minus 1 if x < trunc x): exact over R
+     and over binary64 for |x| < 2^53;  np.log2 is [nlog2] = ln x / ln 2: the exact value over R; over binary64 only an
+     approximation of numpy's log2 (1-2 ulp) -- generated text that uses it is not meant to be evaluated in binary64;
+   * np.max of a 1-d array is [vmax_py]: left fold of [nmax] starting from the first element (numpy's maximum.reduce on
+     NaN-free data); on an empty array numpy raises, [vmax_py] gives 0 (outside the subset's meaning);
+   * `None` is [tt];
+   * +infinity: [Num] has none.  A module constant bound to np.inf is the extra argument [pinf : N] of the generated
+     functions (see py2coq.py); the generated text is the source's meaning only on inputs whose floats are all real numbers
+     below [pinf];
    * `while c: body` is [while_fuel fuel c body state] with an explicit iteration budget `fuel` (an int expression over
      the arguments supplied to the translator, NOT part of the source); a function containing a `while` (or calling
      one that does) returns the pair (value, ok) where ok is the conjunction of the loops' flags: ok = true iff every
@@ -59,6 +71,10 @@ Definition zset {A : Type} (l : list A) (i : Z) (v : A) : list A :=
   let j := wrap_index (zlen l) i in
   if (j <? 0)%Z then l else set_nth_nat l (Z.to_nat j) v.
 
+(* int matrices; size of a (rectangular) 2-d array *)
+Definition imrow (m : list (list Z)) (i : Z) : list Z := znth [] m i.
+Definition imnth (m : list (list Z)) (i j : Z) : Z := znth 0%Z (znth [] m i) j.
+Definition msize {A : Type} (m : list (list A)) : Z := (zlen m * zlen (znth [] m 0))%Z.
 (* `a[:n]`: the first n elements; a negative n means len(a) + n (and nothing if that is negative too) *)
 Definition zslice_to {A : Type} (l : list A) (n : Z) : list A :=
   firstn (Z.to_nat (if (n <? 0)%Z then (zlen l + n)%Z else n)) l.
@@ -75,6 +91,8 @@ Definition vzeros (n : Z) : list N := repeat (zero N) (Z.to_nat n).
 Definition mzeros (r c : Z) : list (list N) := repeat (vzeros c) (Z.to_nat r).
 Definition inth (x : list Z) (i : Z) : Z := znth 0%Z x i.
 Definition iset (x : list Z) (i : Z) (v : Z) : list Z := zset x i v.
+Definition vfilter (p : N -> bool) (x : list N) : list N := filter p x.      (* a[mask] *)
+Definition mravel (m : list (list N)) : list N := concat m.                   (* m.ravel(), C order *)
 
 Definition nlit (m : Z) (e : Z) : N :=
   if (e <? 0)%Z then div N (of_Z N m) (of_Z N (10 ^ (- e))%Z) else of_Z N (m * 10 ^ e)%Z.
@@ -91,6 +109,9 @@ Definition nmax (a b : N) : N := if ltb N a b then b else a.      (* Python max(
 Definition nmin (a b : N) : N := if ltb N b a then b else a.      (* Python min(a, b): b if b < a else a *)
 Definition nsign (a : N) : N :=                                   (* np.sign *)
   if ltb N a (zero N) then neg N (one N) else if ltb N (zero N) a then one N else zero N.
+Definition nfloor (x : N) : N :=                                  (* np.floor *)
+  let t := of_Z N (ntrunc N x) in if ltb N x t then sub N t (one N) else t.
+Definition nlog2 (x : N) : N := div N (nln N x) (nln N (of_Z N 2)).            (* np.log2 *)
 Definition nne (a b : N) : bool := negb (eqb N a b).
 Definition ngt (a b : N) : bool := ltb N b a.
 Definition nge (a b : N) : bool := leb N b a.
@@ -102,7 +123,7 @@ Definition vmaps_r (f : N -> N -> N) (x : list N) (c : N) : list N := map (fun a
 Definition vmaps_l (f : N -> N -> N) (c : N) (x : list N) : list N := map (fun a => f c a) x.   (* scalar op array *)
 Definition vmap1 (f : N -> N) (x : list N) : list N := map f x.
 Definition vcount (p : N -> bool) (x : list N) : Z := Z.of_nat (length (filter p x)).          (* np.sum(x != 0) *)
-(* x.max() / x.min(): running maximum from the first element (numpy raises on an empty array: 0 here, outside the meaning) *)
+(* x.max() / np.max(x) / x.min(): running maximum from the first element (numpy raises on an empty array: 0 here, outside the meaning) *)
 Definition vmax_py (x : list N) : N := match x with [] => zero N | a :: l => fold_left nmax l a end.
 Definition vmin_py (x : list N) : N := match x with [] => zero N | a :: l => fold_left nmin l a end.
 (* X[mask] = E (E elementwise): positions where the mask holds take E's element, the others keep X's *)
